@@ -50,8 +50,11 @@ structure Conn where
   ctx : Nat
   /-- `ctx.Request.bodyStream` when it is a `*bodyStream` -/
   stream : Option Nat := none
-  /-- `hjc` of `hijackConnHandler` -/
+  /-- `hjc` of `hijackConnHandler`, the object the user's hijack handler was given; the user's variable keeps
+  pointing to it after it was released -/
   hj : Option Nat := none
+  /-- control point of the holder of `hj`: true from `acquireHijackConn` until its first effective release -/
+  hjLive : Bool := false
   exiled : Bool := false
   deriving DecidableEq, Repr
 
@@ -72,12 +75,16 @@ def Conn.owns (cn : Conn) : Kind → Bool
     | .handling => true
     | .ret r => r.streamLive
     | _ => false
-  | .hjconn => true      -- `hj` is set only between acquire and release (or kept by the user: KeepHijackedConns)
+  | .hjconn => cn.hjLive
 
 structure State where
   pool : Kind → List Nat := fun _ => []
   conns : Nat → Option Conn := fun _ => none
   next : Nat := 0
+  /-- per object: `hjc.Conn != nil` (set by `acquireHijackConn`, cleared by `releaseHijackConn`) -/
+  hjSet : Nat → Bool := fun _ => false
+  /-- `Engine.KeepHijackedConns` (constant) -/
+  keepHj : Bool := false
 
 /-- `sync.Pool.Get`: the identity handed out, the remaining pool, the allocation counter -/
 def take (l : List Nat) (i next : Nat) : Nat × List Nat × Nat :=
@@ -93,6 +100,10 @@ def State.setConn (s : State) (c : Nat) (cn : Option Conn) : State :=
 
 /-- `sync.Pool.Put` -/
 def State.put (s : State) (k : Kind) (x : Nat) : State := s.setPool k (x :: s.pool k)
+
+/-- `hjc.Conn = c` / `hjc.Conn = nil` -/
+def State.setHj (s : State) (x : Nat) (b : Bool) : State :=
+  { s with hjSet := fun y => if y = x then b else s.hjSet y }
 
 /-- how the handler chain ended -/
 inductive HandlerEnd where
@@ -118,8 +129,12 @@ inductive Ev where
   | respond (c : Nat) (ok skipErr : Bool)
   /-- hijack (acquireHijackConn, choice `i`) / short connection / IdleTimeout 0 / `ctx.ResetWithoutConn()` -/
   | after (c : Nat) (e : Ending) (i : Nat)
-  /-- the hijack handler returned; `keep`: `KeepHijackedConns` (the object stays with the user) -/
-  | hijackEnd (c : Nat) (keep : Bool)
+  /-- the user's code calls `Close()` on the hijack conn it was given — any number of times, while its hijack
+  handler runs or (a kept conn) while `Serve` returns.  `hijackConn.Close`: nothing unless `KeepHijackedConns`;
+  nothing if `c.Conn == nil` (4f1f5ed); else `releaseHijackConn` (`Conn = nil`, `Put`) -/
+  | userClose (c : Nat)
+  /-- the hijack handler returned: `if !KeepHijackedConns { c.Close(); releaseHijackConn(hjc) }` -/
+  | hijackEnd (c : Nat)
   /-- the deferred function of `Serve`: `if ctx.IsExiled() { return }; s.putRequestContext(ctx)` -/
   | finish (c : Nat)
   deriving DecidableEq, Repr
@@ -175,19 +190,34 @@ def step (s : State) : Ev → State
         match e with
         | .hijack =>
           let (x, l, n) := take (s.pool .hjconn) i s.next
-          { (s.setPool .hjconn l).setConn c (some { cn with phase := .hijacking, hj := some x }) with next := n }
+          { ((s.setPool .hjconn l).setConn c (some { cn with phase := .hijacking, hj := some x, hjLive := true })).setHj x true
+            with next := n }
         | .close => s.setConn c (some { cn with phase := .ret .shortConn })
         | .idle0 => s.setConn c (some { cn with phase := .ret .idle0 })
         | .keepAlive => s.setConn c (some { cn with phase := .idle, stream := none })   -- ctx.ResetWithoutConn()
       else s
     | none => s
-  | .hijackEnd c keep =>
+  | .userClose c =>
+    match s.conns c with
+    | some cn =>
+      if cn.phase = .hijacking ∨ cn.phase = .ret .hijacked then
+        match cn.hj with
+        | some x =>
+          if s.keepHj && s.hjSet x then
+            ((s.put .hjconn x).setHj x false).setConn c (some { cn with hjLive := false })
+          else s
+        | none => s
+      else s
+    | none => s
+  | .hijackEnd c =>
     match s.conns c with
     | some cn =>
       if cn.phase = .hijacking then
-        match cn.hj, keep with
-        | some x, false => (s.put .hjconn x).setConn c (some { cn with phase := .ret .hijacked, hj := none })
-        | _, _ => s.setConn c (some { cn with phase := .ret .hijacked, hj := none })
+        match cn.hj with
+        | some x =>
+          if s.keepHj then s.setConn c (some { cn with phase := .ret .hijacked })
+          else ((s.put .hjconn x).setHj x false).setConn c (some { cn with phase := .ret .hijacked, hj := none, hjLive := false })
+        | none => s.setConn c (some { cn with phase := .ret .hijacked })
       else s
     | none => s
   | .finish c =>
@@ -203,6 +233,8 @@ def run (s : State) : List Ev → State
   | e :: es => run (step s e) es
 
 def init : State := {}
+/-- an engine with `KeepHijackedConns = keep` -/
+def initK (keep : Bool) : State := { keepHj := keep }
 
 /-! ## statements -/
 
@@ -218,7 +250,9 @@ structure Inv (s : State) : Prop where
   notPooled : ∀ c cn k x, s.conns c = some cn → cn.holds k x → x ∉ s.pool k
   distinct : ∀ c d cn dn k x, s.conns c = some cn → s.conns d = some dn → cn.holds k x → dn.holds k x → c = d
   idleClean : ∀ c cn, s.conns c = some cn → cn.phase = .idle → cn.stream = none
-  hjOnly : ∀ c cn x, s.conns c = some cn → cn.hj = some x → cn.phase = .hijacking
+  hjOnly : ∀ c cn x, s.conns c = some cn → cn.hj = some x → cn.phase = .hijacking ∨ cn.phase = .ret .hijacked
+  /-- only a user `Close` under `KeepHijackedConns` ends the holder's ownership while the reference stays -/
+  liveUnlessKeep : ∀ c cn x, s.conns c = some cn → cn.hj = some x → cn.hjLive = false → s.keepHj = true
 
 /-- an object is accounted for: in its pool, or owned by a live connection -/
 def tracked (s : State) (k : Kind) (x : Nat) : Prop :=
@@ -226,14 +260,27 @@ def tracked (s : State) (k : Kind) (x : Nat) : Prop :=
 
 /-- The places where `Serve` lets go of an object without putting it back (the garbage collector gets it):
 an exiled context; a body stream on the early returns (write/flush failure, unrecovered panic); a hijack conn
-the user keeps. -/
+the user keeps (`KeepHijackedConns`) and has not closed when `Serve` returns. -/
 def deliberate (s : State) (e : Ev) (k : Kind) (x : Nat) : Prop :=
   match e with
   | .finish c => ∃ cn, s.conns c = some cn ∧ cn.holds k x ∧
       ((k = .ctx ∧ cn.exiled = true) ∨
-       (k = .stream ∧ (cn.phase = .ret .writeFail ∨ cn.phase = .ret .panicked)))
-  | .hijackEnd c true => ∃ cn, s.conns c = some cn ∧ k = .hjconn ∧ cn.hj = some x
+       (k = .stream ∧ (cn.phase = .ret .writeFail ∨ cn.phase = .ret .panicked)) ∨
+       k = .hjconn)
   | _ => False
+
+/-- The case the repaired `hijackConn.Close` still does NOT protect: a holder that has already released its hijack
+conn calls `Close` again after the object was handed to another connection (`Conn` is set again, so the guard
+`conn == nil` does not fire): it closes the other connection and puts the object while the other one uses it. -/
+def staleClose (s : State) : Ev → Prop
+  | .userClose c => ∃ cn x, s.conns c = some cn ∧ cn.hj = some x ∧ cn.hjLive = false ∧ s.hjSet x = true ∧
+      s.keepHj = true ∧ (cn.phase = .hijacking ∨ cn.phase = .ret .hijacked)
+  | _ => False
+
+/-- a run without such a call -/
+def NoStale (s : State) : List Ev → Prop
+  | [] => True
+  | e :: es => ¬ staleClose s e ∧ NoStale (step s e) es
 
 /-! ## from a script (what the harness drives) to events -/
 
@@ -249,12 +296,14 @@ structure Req where
   panics : Bool := false      -- and nothing recovers
   failWrite : Bool := false
   hijack : Bool := false
+  /-- how often the hijack handler calls `Close()` on the conn it was given -/
+  closes : Nat := 0
   close : Bool := false
   deriving DecidableEq, Repr
 
 /-- events of connection `c` for the rest of its script; `gets` supplies the `Get` choices in order.
 Guards in the order of the Go code: write failure, release error, hijack, close, IdleTimeout 0. -/
-def connEvents (c : Nat) (idle0 keepHj : Bool) : List Req → List Ev
+def connEvents (c : Nat) (idle0 : Bool) : List Req → List Ev
   | [] => [.readFail c, .finish c]
   | r :: rs =>
     if !r.readable then [.readFail c, .finish c] else
@@ -263,10 +312,10 @@ def connEvents (c : Nat) (idle0 keepHj : Bool) : List Req → List Ev
      if r.failWrite then [.respond c false false, .finish c] else
      if r.streamed && r.skipErr then [.respond c true true, .finish c] else
      [.respond c true false] ++
-     (if r.hijack then [.after c .hijack 0, .hijackEnd c keepHj, .finish c] else
+     (if r.hijack then [.after c .hijack 0] ++ List.replicate r.closes (.userClose c) ++ [.hijackEnd c, .finish c] else
       if r.close then [.after c .close 0, .finish c] else
       if idle0 then [.after c .idle0 0, .finish c] else
-      .after c .keepAlive 0 :: connEvents c idle0 keepHj rs))
+      .after c .keepAlive 0 :: connEvents c idle0 rs))
 
 /-! ## the acquire / release sites the steps above were written against
 
@@ -274,7 +323,10 @@ def connEvents (c : Nat) (idle0 keepHj : Bool) : List Req → List Ev
 `http1/req/request.go` (stream acquisition), `route/engine.go` (hijack conn) and `protocol/request.go` (body buffer).
 Regenerated from the Go source into `Gen/PoolSites.lean`; `Props.C09.release_sites_match_gen` pins the two lists. -/
 def expectedSites : List (String × String × String) := [
+  ("Server.getRequestContext", "disabaleRequestContextPool", "return"),
   ("Server.getRequestContext", "", "s.Core.GetCtxPool().Get()"),
+  ("Server.getRequestContext", "", "return"),
+  ("Server.putRequestContext", "disabaleRequestContextPool", "return"),
   ("Server.putRequestContext", "", "ctx.Reset()"),
   ("Server.putRequestContext", "", "s.Core.GetCtxPool().Put(ctx)"),
   ("Server.Serve", "", "s.getRequestContext()"),
@@ -290,25 +342,38 @@ def expectedSites : List (String × String × String) := [
   ("Server.Serve", "hijackHandler != nil", "s.HijackConnHandle(ctx.GetConn(), hijackHandler)"),
   ("Server.Serve", "", "ctx.ResetWithoutConn()"),
   ("AcquireBodyStream", "", "bodyStreamPool.Get()"),
+  ("AcquireBodyStream", "", "return"),
   ("ReleaseBodyStream", "ok", "rs.skipRest()"),
   ("ReleaseBodyStream", "ok", "rs.reset()"),
   ("ReleaseBodyStream", "ok", "bodyStreamPool.Put(rs)"),
+  ("ReleaseBodyStream", "", "return"),
   ("ContinueReadBodyStream", "err != nil && errors.Is(err, errs.ErrBodyTooLarge)", "ext.AcquireBodyStream(bodyBuf, zr, req.Header.Trailer(), contentLength)"),
   ("ContinueReadBodyStream", "err != nil && errors.Is(err, errs.ErrBodyTooLarge)", "req.ConstructBodyStream(bodyBuf, ext.AcquireBodyStream(bodyBuf, zr, req.Header.Trailer(), contentLength))"),
   ("ContinueReadBodyStream", "err != nil && errors.Is(err, errs.ErrChunkedStream)", "ext.AcquireBodyStream(bodyBuf, zr, req.Header.Trailer(), contentLength)"),
   ("ContinueReadBodyStream", "err != nil && errors.Is(err, errs.ErrChunkedStream)", "req.ConstructBodyStream(bodyBuf, ext.AcquireBodyStream(bodyBuf, zr, req.Header.Trailer(), contentLength))"),
   ("ContinueReadBodyStream", "", "ext.AcquireBodyStream(bodyBuf, zr, req.Header.Trailer(), contentLength)"),
   ("ContinueReadBodyStream", "", "req.ConstructBodyStream(bodyBuf, ext.AcquireBodyStream(bodyBuf, zr, req.Header.Trailer(), contentLength))"),
+  ("Engine.acquireHijackConn", "engine.NoHijackConnPool", "return"),
   ("Engine.acquireHijackConn", "", "engine.hijackConnPool.Get()"),
+  ("Engine.acquireHijackConn", "v == nil", "return"),
+  ("Engine.acquireHijackConn", "", "return"),
+  ("Engine.releaseHijackConn", "engine.NoHijackConnPool", "return"),
   ("Engine.releaseHijackConn", "", "engine.hijackConnPool.Put(hjc)"),
   ("Engine.hijackConnHandler", "", "engine.acquireHijackConn(c)"),
   ("Engine.hijackConnHandler", "", "h(hjc)"),
   ("Engine.hijackConnHandler", "!engine.KeepHijackedConns", "c.Close()"),
   ("Engine.hijackConnHandler", "!engine.KeepHijackedConns", "engine.releaseHijackConn(hjc)"),
+  ("hijackConn.Close", "!c.e.KeepHijackedConns", "return"),
+  ("hijackConn.Close", "conn == nil", "return"),
   ("hijackConn.Close", "", "c.e.releaseHijackConn(c)"),
   ("hijackConn.Close", "", "conn.Close()"),
+  ("hijackConn.Close", "", "return"),
   ("Request.BodyBuffer", "req.body == nil", "requestBodyPool.Get()"),
+  ("Request.BodyBuffer", "", "return"),
   ("Request.ResetBody", "", "req.CloseBodyStream()"),
-  ("Request.ResetBody", "req.body != nil", "requestBodyPool.Put(req.body)")]
+  ("Request.ResetBody", "req.body != nil && req.body.Cap() <= req.maxKeepBodySize", "return"),
+  ("Request.ResetBody", "req.body != nil", "requestBodyPool.Put(req.body)"),
+  ("Request.CloseBodyStream", "req.bodyStream == nil", "return"),
+  ("Request.CloseBodyStream", "", "return")]
 
 end Hertz.PoolOwn
